@@ -38,37 +38,46 @@ def r1_inclusive_stop(R) -> None:
     f = Fn(R, q)
     param = f.fi.params()[1] if len(f.fi.params()) > 1 else 'index'
     role: Dict[str, str] = {}
-    falsy_default = {}
-    for part in ('start', 'stop', 'step'):
-        ns = _names_from(f, lambda v, part=part: text(v) == f'{param}.{part}')
-        if not ns:
-            # `x = index.part or <default>`: a falsy-test default
-            ns = _names_from(f, lambda v, part=part: isinstance(v, ast.BoolOp) and isinstance(v.op, ast.Or) and text(v.values[0]) == f'{param}.{part}')
-            if len(ns) == 1:
-                falsy_default[part] = True
-        if len(ns) != 1:
-            raise Unknown(f'{q}: cannot identify the local holding `{param}.{part}` (found {sorted(ns)})')
-        role[part] = ns.pop()
-    for part in falsy_default:
-        R.violation(q, f'default-falsy:{part}', f'the default for an open slice {part} is applied with `or`, i.e. to every *falsy* label (0, \'\') instead of only to '
-                    f'None: a slice bounded by such a label is read as open', where=f.fi.where)
-    if falsy_default:
-        return
-    # defaults for open ends
+    # the three parts of the slice, with the default of an open end, read on the gated value of the local that carries each
+    # (an `if x is None: x = d`, a conditional expression and a helper all read the same)
+    from fsa.gated import canon
+    se = f.symexec()
+    rets_ = f.returns()
+    if not rets_:
+        raise Unknown(f'{q}: no return')
     want = {'start': [f'{s}[0]' for s in SPAN], 'stop': [f'{s}[-1]' for s in SPAN], 'step': ['1']}
-    for part, nm in role.items():
-        ds = [d for d in f.vdefs(nm) if d.op is None and d.knows(f'{nm} is None')]
-        if not ds:
-            falsy = [d for d in f.vdefs(nm) if d.op is None and isinstance(d.node.ast, ast.Assign) and isinstance(d.node.ast.value, ast.BoolOp)]
-            if falsy:
-                R.violation(q, f'default-falsy:{part}', f'`{text(falsy[0].node.ast)[:60]}`: the default for an open {part} is applied to every *falsy* label '
-                            f'(0, \'\') instead of only to None: a slice bounded by such a label is read as open', where=f.where(falsy[0].node))
+    for part in ('start', 'stop', 'step'):
+        src = f'{param}.{part}'
+        found = None
+        for nm in sorted(f.lf.locals):
+            if nm in f.fi.params():
                 continue
+            try:
+                v = canon(se.value(rets_[0].ast, ast.Name(id=nm, ctx=ast.Load())))
+            except Exception:
+                continue
+            if isinstance(v, ast.IfExp) and text(v.test) == f'{src} is None' and text(v.orelse) == src:
+                found = (nm, 'none', v.body)
+            elif isinstance(v, ast.BoolOp) and isinstance(v.op, ast.Or) and text(v.values[0]) == src:
+                found = (nm, 'falsy', v.values[-1])
+            elif isinstance(v, ast.IfExp) and text(v.test) == src and text(v.body) == src:
+                found = (nm, 'falsy', v.orelse)
+            elif text(v) == src and found is None:
+                found = (nm, 'missing', None)
+        if found is None:
+            raise Unknown(f'{q}: cannot identify the local holding `{src}`')
+        nm, kind, dv = found
+        role[part] = nm
+        if kind == 'falsy':
+            R.violation(q, f'default-falsy:{part}', f'the default for an open slice {part} is applied to every *falsy* label (0, \'\') instead of only to '
+                        f'None (`{nm}` is `{src} or {text(dv)[:30]}`): a slice bounded by such a label is read as open', where=f.fi.where)
+            return
+        if kind == 'missing':
             R.violation(q, f'default-missing:{part}', f'no default for an open slice {part} (`{nm} is None`)', where=f.fi.where)
             continue
-        got = text(ds[0].value)
-        R.check(got in want[part], q, f'default:{part}:{got}', f'an open {part} defaults to {want[part][-1]}',
-                f'default for an open `{part}` is `{got}`, expected {want[part][-1]}', where=f.where(ds[0].node))
+        got = text(f.expand(rets_[0].id, dv))
+        R.check(got in want[part] or text(dv) in want[part], q, f'default:{part}:{got}', f'an open {part} defaults to {want[part][-1]}',
+                f'default for an open `{part}` is `{got}`, expected {want[part][-1]}', where=f.fi.where)
     # located positions
     loc: Dict[str, str] = {}
     located = {part: _names_from(f, lambda v, part=part: is_self_call(v, '_locate_period_in_span') and len(v.args) == 1 and text(v.args[0]) == role[part])
@@ -113,9 +122,20 @@ def r1_inclusive_stop(R) -> None:
             f'the +1 on the stop position is not conditional on `not isinstance({sn}, slice)` (a slice hit already carries an exclusive stop)', where=f.where(d.node))
     # result
     rets = f.returns()
-    ok = len(rets) == 1 and isinstance(rets[0].ast.value, ast.Tuple) and [text(e) for e in rets[0].ast.value.elts] == [loc['start'], loc['stop'], role['step']]
+    want_ret = [loc['start'], loc['stop'], role['step']]
+    main = [r for r in rets if isinstance(r.ast.value, ast.Tuple) and [text(e) for e in r.ast.value.elts] == want_ret]
+    other = [r for r in rets if r not in main]
+    for r in other:
+        # a return that hands back what the span object's own slicing method worked out (a library shortcut under its own
+        # conditions): whether those conditions make it agree with the positions located here is not decided
+        names_ = {x.id for x in ast.walk(r.ast.value) if isinstance(x, ast.Name)} if r.ast.value is not None else set()
+        from_lib = any(isinstance(dv, ast.Call) and isinstance(dv.func, ast.Attribute) and not is_self_call(dv)
+                       for nm_ in names_ for (_s, dv) in f.lf.values_reaching(r.id, nm_) if dv is not None)
+        if from_lib and main:
+            raise Unknown(f'{q}: `return {text(r.ast.value)[:60]}` comes from a library call (a shortcut beside the located positions): not decided here')
+    ok = len(main) == 1 and not other
     R.check(ok, q, 'return:' + (text(rets[0].ast.value) if rets else '?'), 'returns (start position, stop position, step)',
-            f'returns `{text(rets[0].ast.value) if rets else "?"}`, expected ({loc["start"]}, {loc["stop"]}, {role["step"]})', where=f.fi.where)
+            f'returns `{text((other or rets)[0].ast.value) if rets else "?"}`, expected ({loc["start"]}, {loc["stop"]}, {role["step"]})', where=f.fi.where)
 
 
 def _tuple_path(f: Fn) -> Dict[str, object]:
@@ -194,7 +214,9 @@ def r2_get_set_symmetry(R) -> None:
     s = Fn(R, f'{VC}.__setitem__')
     keyg, keys_ = g.fi.params()[1], s.fi.params()[1]
     val = s.fi.params()[2]
-    seg, ses = g.symexec(), s.symexec()
+    # small forwarding methods are read through; the two that the rule is stated in terms of stay calls
+    anchors = ('self._locate_period_in_span', 'self._resolve_period_slice', 'self.__getattr__', 'self.__getitem__', 'self.__setitem__')
+    seg, ses = g.symexec(methods=True, exclude=anchors), s.symexec(methods=True, exclude=anchors)
     # get: every `return <series>[...]`
     seen = {'slice': False, 'loc': False}
     series_g = {f'self.__getattr__({keyg}[0])', f"self.__dict__['_' + {keyg}[0]]"}
